@@ -1194,7 +1194,7 @@ func scannerAdvanceIsAllOrNothing(c *eng.Ctx) {
 		// (b) the writer legitimately produces a bucket of <= 4 bytes (every series of it has an empty entry); the query-side reader
 		// answers "no data" for it - so does the scanner: the short-bucket edge does not lead to an error
 		short := 0
-		for _, b := range f.Blocks {
+		for _, b := range eng.BlocksT(f) {
 			ifi, ok := b.Instrs[len(b.Instrs)-1].(*ssa.If)
 			if !ok {
 				continue
@@ -1224,15 +1224,26 @@ func scannerAdvanceIsAllOrNothing(c *eng.Ctx) {
 			short++
 			first := b.Succs[succ].Instrs[0]
 			bad := false
-			for _, fr := range failing {
+			// the function the test is written in: nextContainer itself or a helper it was split into
+			g := b.Parent()
+			gFailing := failing
+			if g != f {
+				gFailing = nil
+				for _, gb := range g.Blocks {
+					if r, ok := gb.Instrs[len(gb.Instrs)-1].(*ssa.Return); ok && len(r.Results) >= 1 && !eng.ReturnsNilError(r) {
+						gFailing = append(gFailing, eng.Site{Fn: g, Instr: r})
+					}
+				}
+			}
+			for _, fr := range gFailing {
 				if first == fr.Instr {
 					bad = true
 				}
-				if _, reach := eng.PathExists(eng.PathQuery{Fn: f, After: first, Target: func(x ssa.Instruction) bool { return x == fr.Instr }}); reach {
+				if _, reach := eng.PathExists(eng.PathQuery{Fn: g, After: first, Target: func(x ssa.Instruction) bool { return x == fr.Instr }}); reach {
 					// reachable at all is fine only if the success return is reachable too; an unconditional failure is what is refused
 					okToo := false
-					for _, sr := range eng.SuccessReturns(f) {
-						if _, r2 := eng.PathExists(eng.PathQuery{Fn: f, After: first, Target: func(x ssa.Instruction) bool { return x == sr }}); r2 || first == sr {
+					for _, sr := range eng.SuccessReturns(g) {
+						if _, r2 := eng.PathExists(eng.PathQuery{Fn: g, After: first, Target: func(x ssa.Instruction) bool { return x == sr }}); r2 || first == sr {
 							okToo = true
 						}
 					}
